@@ -99,5 +99,87 @@ def crossings (px py : α) (vs : List (α × α)) : Nat :=
 
 def inPolygon (px py : α) (vs : List (α × α)) : Bool := crossings px py vs % 2 == 1
 
+/-! ### constructor / argument-validation ladders (round 6)
+
+Outcome of a ladder: `0` = accepted, `k` = the `k`-th `raise` of the ladder (in source order) fired.
+The comparisons are transcribed literally (`>=`, `<=`, `<`, `>`), so that at `Float` a NaN bound behaves as in C. -/
+
+/-- ClampOutput{1,2,3}D.__init__, ClampInput1D.__init__: `if min >= max: raise ValueError` -/
+def clampCtor (mn mx : α) : Nat := if mn ≥ mx then 1 else 0
+
+/-- ClampInput2D.__init__ -/
+def clampCtor2 (xmin xmax ymin ymax : α) : Nat :=
+  if xmin ≥ xmax then 1 else if ymin ≥ ymax then 2 else 0
+
+/-- ClampInput3D.__init__ -/
+def clampCtor3 (xmin xmax ymin ymax zmin zmax : α) : Nat :=
+  if xmin ≥ xmax then 1 else if ymin ≥ ymax then 2 else if zmin ≥ zmax then 3 else 0
+
+/-- (Vector)PeriodicTransform1D.__init__: `if period <= 0: raise ValueError` -/
+def periodicCtor1 (p : α) : Nat := if p ≤ 0 then 1 else 0
+
+/-- (Vector)PeriodicTransform2D.__init__: `if period_x < 0 … if period_y < 0` (zero = axis not periodic) -/
+def periodicCtor2 (px py : α) : Nat := if px < 0 then 1 else if py < 0 then 2 else 0
+
+/-- (Vector)PeriodicTransform3D.__init__ -/
+def periodicCtor3 (px py pz : α) : Nat :=
+  if px < 0 then 1 else if py < 0 then 2 else if pz < 0 then 3 else 0
+
+/-- sample1d: `len(x_range) != 3`, `x_range[0] > x_range[1]`, `x_range[2] < 1` in that order -/
+def sampleCtor1 (lx : Nat) (x0 x1 : α) (nx : Int) : Nat :=
+  if lx ≠ 3 then 1 else if x0 > x1 then 2 else if nx < 1 then 3 else 0
+
+/-- sample2d / samplevector2d: both lengths, then both orders, then both counts -/
+def sampleCtor2 (lx ly : Nat) (x0 x1 y0 y1 : α) (nx ny : Int) : Nat :=
+  if lx ≠ 3 then 1 else if ly ≠ 3 then 2
+  else if x0 > x1 then 3 else if y0 > y1 then 4
+  else if nx < 1 then 5 else if ny < 1 then 6 else 0
+
+/-- sample3d / samplevector3d -/
+def sampleCtor3 (lx ly lz : Nat) (x0 x1 y0 y1 z0 z1 : α) (nx ny nz : Int) : Nat :=
+  if lx ≠ 3 then 1 else if ly ≠ 3 then 2 else if lz ≠ 3 then 3
+  else if x0 > x1 then 4 else if y0 > y1 then 5 else if z0 > z1 then 6
+  else if nx < 1 then 7 else if ny < 1 then 8 else if nz < 1 then 9 else 0
+
+/-- sample1d, whole entry point: ladder, `linspace` axis, loop.  `Except.error k` = the k-th raise. -/
+def sample1d (f : α → β) (lx : Nat) (x0 x1 : α) (nx : Int) : Except Nat (List α × List β) :=
+  if sampleCtor1 lx x0 x1 nx = 0 then
+    let xs := grid x0 x1 nx.toNat
+    .ok (xs, sample1 f xs)
+  else .error (sampleCtor1 lx x0 x1 nx)
+
+/-- sample2d / samplevector2d -/
+def sample2d (f : α → α → β) (lx ly : Nat) (x0 x1 y0 y1 : α) (nx ny : Int) :
+    Except Nat (List α × List α × List (List β)) :=
+  if sampleCtor2 lx ly x0 x1 y0 y1 nx ny = 0 then
+    let xs := grid x0 x1 nx.toNat
+    let ys := grid y0 y1 ny.toNat
+    .ok (xs, ys, sample2 f xs ys)
+  else .error (sampleCtor2 lx ly x0 x1 y0 y1 nx ny)
+
+/-- sample3d / samplevector3d -/
+def sample3d (f : α → α → α → β) (lx ly lz : Nat) (x0 x1 y0 y1 z0 z1 : α) (nx ny nz : Int) :
+    Except Nat (List α × List α × List α × List (List (List β))) :=
+  if sampleCtor3 lx ly lz x0 x1 y0 y1 z0 z1 nx ny nz = 0 then
+    let xs := grid x0 x1 nx.toNat
+    let ys := grid y0 y1 ny.toNat
+    let zs := grid z0 z1 nz.toNat
+    .ok (xs, ys, zs, sample3 f xs ys zs)
+  else .error (sampleCtor3 lx ly lz x0 x1 y0 y1 z0 z1 nx ny nz)
+
+/-! ### nested wrappers (round 6): the compositions that plasma profiles are built from -/
+
+/-- `ClampOutput1D(PeriodicTransform1D(f, p), mn, mx)` -/
+def clampOutPeriodic1 (fmod : α → α → α) (f : α → α) (p mn mx : α) : α → α :=
+  clampOutput1 (periodic1 fmod f p) mn mx
+
+/-- `AxisymmetricMapper(PeriodicTransform2D(f, 0, pz))`: a profile periodic along the axis -/
+def axisymmetricPeriodic (sqrt : α → α) (fmod : α → α → α) (f : α → α → β) (pr pz : α) : α → α → α → β :=
+  axisymmetric sqrt (periodic2 fmod f pr pz)
+
+/-- `Slice3D(ClampInput3D(f, …), axis, value)` -/
+def sliceClampInput3 (f : α → α → α → β) (xmin xmax ymin ymax zmin zmax : α) (axis : Nat) (value : α) : α → α → β :=
+  slice3 (clampInput3 f xmin xmax ymin ymax zmin zmax) axis value
+
 end
 end Cherab.Wrappers
